@@ -22,16 +22,17 @@ shutil.copy(os.path.join(src, "demo%s.py" % k), os.path.join(dst, "demo.py"))
 meta = json.load(open(os.path.join(src, "meta%s.json" % k)))
 conf = "/tmp/confirm%s_%s_%s.txt" % (os.environ.get("CONFTAG", ""), wt, k)
 confirmed = open(conf).read().strip().splitlines() if os.path.exists(conf) else []
-if subprocess.run(["git", "-C", "/repo", "status", "--porcelain", "--untracked-files=no"], capture_output=True, text=True).stdout.strip():
+if subprocess.run(["git", "-C", os.environ.get("PAR_WORKTREE") or "/repo", "status", "--porcelain", "--untracked-files=no"], capture_output=True, text=True).stdout.strip():
     sys.exit("/repo not clean")
 at_wt = os.environ.get("AT_WORKTREE")     # the change was made harmless by a later repair: run the checks against the worktree it was seeded in
-target = os.path.dirname(src) if at_wt else "/repo"
+par_wt = os.environ.get("PAR_WORKTREE")  # a clean scratch worktree of /repo HEAD: lets several archive runs go in parallel (VERIF_REPO=<worktree>)
+target = os.path.dirname(src) if at_wt else (par_wt or "/repo")
 head = subprocess.run(["git", "-C", target, "rev-parse", "--short", "HEAD"], capture_output=True, text=True).stdout.strip()
 r = subprocess.run(["git", "-C", target, "apply", os.path.join(dst, "patch.diff")], capture_output=True, text=True)
 if r.returncode != 0:
     sys.exit("patch does not apply to %s HEAD: %s" % (target, r.stderr))
 results = {}
-env = dict(os.environ, VERIF_REPO=target) if at_wt else dict(os.environ)
+env = dict(os.environ, VERIF_REPO=target) if (at_wt or par_wt) else dict(os.environ)
 try:
     for c in checks:
         p = subprocess.run(["./check", c, "--tier", tier], cwd="/verif", capture_output=True, text=True, env=env)
@@ -44,7 +45,8 @@ out = {
     "origin": "sub-agent given only the property text and its own worktree",
     "agent_reported": {k2: meta.get(k2) for k2 in ("suite", "demo_clean", "demo_mutated")},
     "confirmed_by_me": {"what_i_ran": "tools/confirm_seed.sh %s %s (patch applied in the scratch worktree: full baseline suite vs BASELINE.json stable_pass, demo with patch, demo on clean tree)" % (wt, k), "output": confirmed},
-    "checks_run_against_it": {"repo_head": head, "how": ("git -C /repo apply patch.diff; ./check <ID> --tier %s; git -C /repo checkout -- ." % tier) if not at_wt else
+    "checks_run_against_it": {"repo_head": head, "how": ("git -C /repo apply patch.diff; ./check <ID> --tier %s; git -C /repo checkout -- ." % tier) if not (at_wt or par_wt) else
+                              ("patch applied in a clean scratch worktree of /repo HEAD %s; VERIF_REPO=<worktree> ./check <ID> --tier %s; git checkout -- ." % (head, tier)) if par_wt else
                               ("patch applied in the scratch worktree (at %s); VERIF_REPO=<worktree> ./check <ID> --tier %s" % (head, tier)), "results": results},
     "caught_by": [c for c, v in results.items() if v["exit"] == 1],
 }
